@@ -71,7 +71,7 @@ def main():
             harness.note_harness_exception(stats, ctx, e)
         stats.record(case, ctx)
         state["n"] += 1
-        if state["n"] % 200 == 0:
+        if state["n"] % 20 == 0:
             flush()
 
     test = settings(database=None, deadline=None, suppress_health_check=list(HealthCheck), verbosity=hypothesis.Verbosity.quiet)(
@@ -84,7 +84,26 @@ def main():
 
     flush()
     os.makedirs(corpus, exist_ok=True)
-    argv = [sys.argv[0], corpus, f"-runs={runs}", f"-seed={max(1, int(seed))}", "-max_len=8192", "-len_control=50", "-print_final_stats=0", "-verbosity=0"]
+    # starting corpus: a few long pseudo-random byte strings (deterministic in the seed).  The structured
+    # cases need hundreds of draws; from an empty corpus libFuzzer would spend the whole budget on inputs
+    # that are too short to decode.  An all-zero input is added as well (Hypothesis decodes it to the
+    # simplest case).
+    import random
+
+    rnd = random.Random(int(seed))
+    n_valid = tries = 0
+    while n_valid < 12 and tries < 400:
+        # only byte strings that Hypothesis decodes into a complete case are useful seeds (a random string is
+        # rejected with high probability for the large structured cases); the canonical form is stored
+        tries += 1
+        buf = bytes(8192) if tries == 1 else rnd.randbytes(rnd.choice([2048, 8192]))
+        canon = fuzz_one(buf)
+        if canon is not None:
+            with open(os.path.join(corpus, f"seed{n_valid}"), "wb") as f:
+                f.write(bytes(canon))
+            n_valid += 1
+    flush()
+    argv = [sys.argv[0], corpus, f"-runs={runs}", f"-seed={max(1, int(seed))}", "-max_len=16384", "-len_control=0", "-print_final_stats=0", "-verbosity=0"]
     atheris.Setup(argv, target)
     try:
         atheris.Fuzz()
